@@ -371,6 +371,13 @@ Theorem C09_lenswitch_default_noncanonical_refuted :
 Proof. exact lenswitch_default_noncanonical_refuted. Qed.
 Print Assumptions C09_lenswitch_default_noncanonical_refuted.
 
+(* BitField(shift=False) with a Bool entry away from bit 0 (excluded by sound_frag): accepted, not writable *)
+Theorem C09_bitfield_bool_unshifted_refuted :
+  wf bf_bool_spec = true /\ sound_frag bf_bool_spec = false /\
+  exists v, de true false bf_bool_spec [] [128] = Some (v, []) /\ ser true bf_bool_spec [] v = None.
+Proof. exact bf_bool_unshifted_refuted. Qed.
+Print Assumptions C09_bitfield_bool_unshifted_refuted.
+
 (* ---- non-vacuity: a registered-like tree (cf. ViewerEffect / BinaryBucket / particle-system payloads):
    a Template with an enum byte, a flag byte that switches an optional member on, a U8-prefixed Collection of
    (U16, C string) records and a prefixed optional *)
@@ -417,6 +424,22 @@ Example C09_ex_canon :
   pl_pass true false ex_canon_spec [1; 2; 3] = Some [1; 2; 3] /\
   pl_pass true false ex_canon_spec ([18; 0; 0; 0; 5; 6] ++ repeat 9 16 ++ [1; 2]) = Some ([18; 0; 0; 0; 5; 6] ++ repeat 9 16 ++ [1; 2]) /\
   pl_pass true false ex_canon_spec [] = Some [].
+Proof. vm_compute. repeat split. Qed.
+
+(* bit fields (ObjectExtraParams FLEXIBLE / LIGHT_IMAGE, ParcelOverlay): shifted and unshifted, enum / flag / Bool entries *)
+Definition ex_bitfield_spec : spec :=
+  STemplate [(0, SAdapter (ABitField [(0, 6, None); (1, 2, Some (AEnum [(0, 0%Z); (1, 1%Z); (2, 3%Z)] false))] true)
+                          (SPrim (PI (IP false W1))));
+             (1, SAdapter (ABitField [(0, 1, Some ABool); (1, 2, Some (AEnum [(0, 0%Z); (1, 2%Z); (2, 4%Z); (3, 6%Z)] false));
+                                      (2, 5, Some (AFlag [(0, 8%Z); (1, 16%Z); (2, 128%Z)]))] false)
+                          (SPrim (PI (IP false W1))))] false false.
+Example C09_ex_payload_bitfield :
+  wf ex_bitfield_spec = true /\ sound_frag ex_bitfield_spec = true /\ canon ex_bitfield_spec = false /\
+  pl_decode true true ex_bitfield_spec [197; 157] =
+    Some (VDict [(0, VDict [(0, VInt 5); (1, VName 2)]);
+                 (1, VDict [(0, VInt 1); (1, VName 2); (2, VList [VName 0; VName 1; VName 2])])]) /\
+  pl_pass true true ex_bitfield_spec [197; 157] = Some [197; 157] /\
+  pl_pass true false ex_bitfield_spec [197; 157] = Some [197; 157].
 Proof. vm_compute. repeat split. Qed.
 
 Example C09_ex_simple_wrapper :
@@ -634,3 +657,79 @@ Proof.
   split; [reflexivity|]. split; [right; eexists; reflexivity|left; reflexivity].
 Qed.
 (* ---- end B5 ---- *)
+
+(* ---- B5 (continued): ExtraParams = se.DictAdapter(se.Collection(U8, entry)) (templates.EXTRA_PARAM_COLLECTION,
+   ObjectUpdate.ObjectData.ExtraParams).  Model: Spec/ExtraParamsModel.v; proofs at the end of Spec/TexEntryProofs.v; tied by
+   the ExtraParams suite of harness/translate/c09_te.py.  The entry serializer (EnumSwitch over TypedByteArray(U32, template))
+   is a parameter `codec (K * V)`; keqb decides key equality (keqb_spec). dict_inv P d: every entry in the entry domain,
+   keys pairwise distinct (any Python dict). *)
+Module XP := HV.Spec.ExtraParamsModel.
+
+(* wire order vs dict: ANY entry sequence on the wire (repeated keys included) decodes to dict(entries): first position, last value *)
+Theorem C09_dictcoll_decode_general : forall (K V : Type) (keqb : K -> K -> bool) (c : TE.codec (K * V)) (P : K * V -> Prop) es rest,
+  TEP.codec_rt c P -> Forall P es -> (List.length es <= 255)%nat ->
+  XP.dec_dictcoll keqb c (N.of_nat (List.length es) :: flat_map (TE.enc c) es ++ rest) = Some (XP.to_dict keqb es, rest).
+Proof. exact (fun K V keqb => TEP.dictcoll_dec_general K V keqb). Qed.
+Print Assumptions C09_dictcoll_decode_general.
+
+Theorem C09_dictcoll_to_dict_nodup : forall (K V : Type) (keqb : K -> K -> bool),
+  (forall a b, keqb a b = true <-> a = b) ->
+  forall es : list (K * V), NoDup (map fst es) -> XP.to_dict keqb es = es.
+Proof. exact TEP.to_dict_nodup. Qed.
+Print Assumptions C09_dictcoll_to_dict_nodup.
+
+(* every dict of at most 255 entries round-trips, and the encoding is self-delimiting *)
+Theorem C09_dictcoll_roundtrip : forall (K V : Type) (keqb : K -> K -> bool),
+  (forall a b, keqb a b = true <-> a = b) ->
+  forall (c : TE.codec (K * V)) (P : K * V -> Prop) d rest,
+  TEP.codec_rt c P -> TEP.dict_inv K V P d -> (List.length d <= 255)%nat ->
+  exists b, XP.enc_dictcoll c d = Some b /\ XP.dec_dictcoll keqb c (b ++ rest) = Some (d, rest).
+Proof. exact TEP.dictcoll_rt. Qed.
+Print Assumptions C09_dictcoll_roundtrip.
+
+(* C09's one-pass clause through the registered wrapper (None <-> b"", nothing may follow), for every accepted payload *)
+Theorem C09_dictcoll_fixed_point : forall (K V : Type) (keqb : K -> K -> bool),
+  (forall a b, keqb a b = true <-> a = b) ->
+  forall (c : TE.codec (K * V)) (P : K * V -> Prop) bs v,
+  TEP.codec_rt c P -> TEP.codec_sound c P -> Forall (fun b => (b < 256)%N) bs ->
+  XP.sub_dec_dictcoll keqb c bs = Some v ->
+  exists b', XP.sub_enc_dictcoll c v = Some b' /\ XP.sub_dec_dictcoll keqb c b' = Some v.
+Proof. exact TEP.sub_dictcoll_fixed_point. Qed.
+Print Assumptions C09_dictcoll_fixed_point.
+
+(* the raw instance the driver runs: entries = (U16 type, U32 length, blob) *)
+Theorem C09_extraparams_raw_roundtrip : forall d rest, XP.raw_dict_ok d = true ->
+  exists b, XP.enc_dictcoll XP.raw_entry_codec d = Some b
+            /\ XP.dec_dictcoll N.eqb XP.raw_entry_codec (b ++ rest) = Some (d, rest).
+Proof. exact TEP.raw_dictcoll_rt. Qed.
+Print Assumptions C09_extraparams_raw_roundtrip.
+
+Theorem C09_extraparams_raw_fixed_point : forall bs v, Forall (fun b => (b < 256)%N) bs ->
+  XP.sub_dec_dictcoll N.eqb XP.raw_entry_codec bs = Some v ->
+  exists b', XP.sub_enc_dictcoll XP.raw_entry_codec v = Some b' /\ XP.sub_dec_dictcoll N.eqb XP.raw_entry_codec b' = Some v.
+Proof. exact TEP.raw_dictcoll_fixed_point. Qed.
+Print Assumptions C09_extraparams_raw_fixed_point.
+
+(* byte identity is refuted: a payload repeating a type is accepted and re-encoded one entry shorter *)
+Theorem C09_extraparams_duplicate_refuted :
+  exists b d b',
+    XP.sub_dec_dictcoll N.eqb XP.raw_entry_codec b = Some (Some d)
+    /\ XP.sub_enc_dictcoll XP.raw_entry_codec (Some d) = Some b' /\ b' <> b
+    /\ d = [(16, [3]); (32, [2])]%N.
+Proof. exact TEP.dictcoll_duplicate_refuted. Qed.
+Print Assumptions C09_extraparams_duplicate_refuted.
+
+Example C09_ex_extraparams :
+  XP.raw_dict_ok [(48, [1; 2; 3]); (16, [])]%N = true
+  /\ XP.sub_enc_dictcoll XP.raw_entry_codec (Some [(48, [1; 2; 3]); (16, [])]%N)
+     = Some [2; 48; 0; 3; 0; 0; 0; 1; 2; 3; 16; 0; 0; 0; 0; 0]%N
+  /\ XP.sub_dec_dictcoll N.eqb XP.raw_entry_codec [2; 48; 0; 3; 0; 0; 0; 1; 2; 3; 16; 0; 0; 0; 0; 0]%N
+     = Some (Some [(48, [1; 2; 3]); (16, [])]%N)
+  /\ XP.sub_dec_dictcoll N.eqb XP.raw_entry_codec [] = Some None
+  /\ XP.sub_dec_dictcoll N.eqb XP.raw_entry_codec [1; 48; 0; 3; 0; 0; 0; 1; 2]%N = None
+  /\ TEP.codec_rt XP.raw_entry_codec TEP.raw_entry_dom /\ TEP.codec_sound XP.raw_entry_codec TEP.raw_entry_dom.
+Proof.
+  split; [reflexivity|]. split; [reflexivity|]. split; [reflexivity|]. split; [reflexivity|]. split; [reflexivity|].
+  split; [exact TEP.raw_entry_rt|exact TEP.raw_entry_sound].
+Qed.
+(* ---- end B5 (continued) ---- *)
